@@ -159,3 +159,14 @@ Theorem C14gen_jr_all_translated :
   gen_untranslated_jr = [].
 Proof. exact gen_jr_all_translated. Qed.
 Print Assumptions C14gen_jr_all_translated.
+
+Theorem C14gen_approval_checkers_safe :
+  forall I (P : list ballot) sc W T S gs nv c B,
+  gen_is_large_enough_safe gs nv c B = true /\ gen_is_cohesive_approval_safe I P T S = true /\
+  gen_cohesive_groups_safe I P = true /\ gen_is_in_core_safe I P sc W = true /\
+  gen_is_strong_EJR_approval_safe I P sc W = true /\ gen_is_EJR_approval_safe I P sc W = true /\
+  gen_is_EJR_any_approval_safe I P sc W = true /\ gen_is_EJR_one_approval_safe I P sc W = true /\
+  gen_is_PJR_approval_safe I P sc W = true /\ gen_is_PJR_any_approval_safe I P sc W = true /\
+  gen_is_PJR_one_approval_safe I P sc W = true.
+Proof. exact gen_approval_checkers_safe. Qed.
+Print Assumptions C14gen_approval_checkers_safe.
